@@ -13,7 +13,7 @@
    (c) evaluation: C03_evaluate_no_resubstitution: assigned values are read in the ORIGINAL environment rho,
        never in the substituted one. *)
 From Coq Require Import List String QArith.
-From Bq Require Import Expr ExprFacts RepModel Routine Compare Compile CompileFacts CompileTop EvaluateFacts RenameFacts.
+From Bq Require Import Expr ExprFacts RepModel Routine Compare Compile CompileFacts CompileTop EvaluateFacts RenameFacts NodeRenameFacts.
 Import ListNotations.
 Open Scope string_scope.
 
@@ -67,3 +67,51 @@ Example C03_nonvacuous :
   subst (rename_keys f s) (rename f swap_expr) = subst s swap_expr
   /\ subst s swap_expr = eadd (ESym "Mtop") (emul (EZ 2) (ESym "N")).
 Proof. split; vm_compute; reflexivity. Qed.
+
+(* ---------- a whole node ---------- *)
+
+(* for ANY carrier and any expression step that does not care how the scope's names are spelled: a subroutine (without a
+   repetition) whose parameters, local variables, link sources and every occurrence of them in its own expressions are
+   renamed by an injective map that leaves port variables and child.resource references alone compiles to the same node --
+   same port sizes, resources, constraints, and identically the same children; only the stored names are the new ones *)
+Theorem C03_node_rename :
+  forall (D : Type) (ev : list (string * D) -> expr -> result D) (statusD : D -> D -> cstatus) (fvD : D -> list string)
+         (f : string -> string),
+    injective f ->
+    (forall env e, ev (rkeys D f env) (rename f e) = ev env e) ->
+    (forall p, f (hash_name p) = hash_name p) -> (forall a b, f (dot a b) = dot a b) ->
+    forall rec r inputs t,
+      rrep r = None ->
+      go_node ev statusD fvD rec r inputs = Ok t ->
+      go_node ev statusD fvD rec (rename_node f r) (rkeys D f inputs) = Ok (rename_stored D f t).
+Proof. intros D ev statusD fvD f Hinj Hren Hh Hd rec r inputs t. apply go_node_rename; assumption. Qed.
+Print Assumptions C03_node_rename.
+
+(* the compile model: if every expression of the node is well-scoped (its symbols are names of the node's scope or one of
+   the global names G) and binder-free, renaming the scope -- also onto names used by ancestors, siblings, descendants or
+   top-level inputs -- changes nothing in what is compiled *)
+Theorem C03_compile_node_rename : forall (f : string -> string) (G : list string),
+  injective f -> (forall g, In g G -> f g = g) ->
+  (forall p, f (hash_name p) = hash_name p) -> (forall a b, f (dot a b) = dot a b) ->
+  forall fuel r inputs t,
+    rrep r = None ->
+    go (ev_strict G) statusE fv (S fuel) r inputs = Ok t ->
+    go ev_subst statusE fv (S fuel) r inputs = Ok t /\
+    go ev_subst statusE fv (S fuel) (rename_node f r) (rkeys expr f inputs) = Ok (rename_stored expr f t).
+Proof. exact compile_node_rename. Qed.
+Print Assumptions C03_compile_node_rename.
+
+(* non-vacuity: a leaf with parameters x, y, a local variable L = x + 1 and a resource T = L * y, compiled with x := N,
+   y := M; its names x <-> N exchanged (N is a name of the OUTER scope, occurring in the values) *)
+Example C03_node_rename_nonvacuous :
+  let f := swap_names "x" "N" in
+  let leaf := Routine "a" None ["x"; "y"] [("L", eadd (ESym "x") (EZ 1))] [] [] [Build_resource "T" RAdditive (emul (ESym "L") (ESym "y"))] [] None [] [] in
+  let ins := [("x", ESym "N"); ("y", ESym "M")] in
+  injective f /\ f "#in_0" = "#in_0" /\ rparams (rename_node f leaf) = ["N"; "y"] /\
+  exists t, go (ev_strict []) statusE fv 2 leaf ins = Ok t /\
+            go ev_subst statusE fv 2 (rename_node f leaf) (rkeys expr f ins) = Ok (rename_stored expr f t) /\
+            map (fun nr => snd (snd nr)) (ct_resources t) = [emul (eadd (ESym "N") (EZ 1)) (ESym "M")].
+Proof.
+  cbn zeta. split; [apply swap_names_injective|]. split; [reflexivity|]. split; [reflexivity|].
+  eexists. repeat split; vm_compute; reflexivity.
+Qed.
